@@ -249,10 +249,15 @@ impl<'a> StateMachine<'a> {
             Ok(utf8) => self.ingest_line_utf8(utf8),
             Err(_) => {
                 let raw_line = String::from_utf8_lossy(raw_line_bytes);
-                let truncated_len = utils::round_char_boundary::floor_char_boundary(
-                    &raw_line,
-                    self.config.max_line_length,
-                );
+                // (a max_line_length of 0 means no limit)
+                let truncated_len = if self.config.max_line_length > 0 {
+                    utils::round_char_boundary::floor_char_boundary(
+                        &raw_line,
+                        self.config.max_line_length,
+                    )
+                } else {
+                    raw_line.len()
+                };
                 self.raw_line = raw_line[..truncated_len].to_string();
                 // As for valid UTF-8: handlers rely on `line` being `raw_line` without its
                 // escape sequences.
